@@ -7,6 +7,9 @@ import (
 	"google.golang.org/protobuf/proto"
 )
 
+// DupEntityIDs makes every trip update and vehicle entity carry the same FeedEntity.id.
+var DupEntityIDs bool
+
 func sp(s string) *string { return &s }
 
 func optStr(pool []string, o O) *string {
@@ -140,6 +143,9 @@ func AlertIDText(e Ent) string {
 // Entity renders one abstract entity.
 func Entity(i int, e Ent) *gtfsrt.FeedEntity {
 	fe := &gtfsrt.FeedEntity{Id: sp(fmt.Sprintf("e%d", i))}
+	if DupEntityIDs && e.K != "al" {
+		fe.Id = sp("same-id") // entity ids identify nothing a property speaks about: all trip updates and vehicles share one
+	}
 	switch e.K {
 	case "tu":
 		tu := &gtfsrt.TripUpdate{}
@@ -248,8 +254,33 @@ func Entity(i int, e Ent) *gtfsrt.FeedEntity {
 func Bytes(msg Msg, order []int) []byte {
 	version := "2.0"
 	m := &gtfsrt.FeedMessage{Header: &gtfsrt.FeedHeader{GtfsRealtimeVersion: &version, Timestamp: optTs(msg.Ts)}}
+	byIndex := map[int]*gtfsrt.FeedEntity{}
 	for _, i := range order {
-		m.Entity = append(m.Entity, Entity(i, msg.Ents[i-1]))
+		fe := Entity(i, msg.Ents[i-1])
+		byIndex[i] = fe
+		m.Entity = append(m.Entity, fe)
+	}
+	for _, pair := range msg.Fuse {
+		keep, drop := byIndex[pair[0]], byIndex[pair[1]]
+		if keep == nil || drop == nil {
+			panic("harness: fuse names an entity that is not in the order")
+		}
+		if keep.TripUpdate == nil {
+			keep.TripUpdate = drop.TripUpdate
+		}
+		if keep.Vehicle == nil {
+			keep.Vehicle = drop.Vehicle
+		}
+		if keep.Alert == nil {
+			keep.Alert = drop.Alert
+		}
+		var rest []*gtfsrt.FeedEntity
+		for _, fe := range m.Entity {
+			if fe != drop {
+				rest = append(rest, fe)
+			}
+		}
+		m.Entity = rest
 	}
 	b, err := proto.Marshal(m)
 	if err != nil {
